@@ -124,8 +124,8 @@ func fnvStr(parts ...string) string {
 }
 
 func cfgClass(c *SimCfg) string {
-	return fmt.Sprintf("b%d/s%d/h%d/v%v/f%d/sc%d/io%d/bm%d/c%d/p%d/y%v/bg%v", c.NumBucket, len(c.Served), c.TreeHeight, c.CheckVHash,
-		c.DataFileMax, c.SplitCap, c.BufIOCap, c.BodyMax, c.BodyInC, c.Policy, c.FuncYield, c.Background)
+	return fmt.Sprintf("b%d/s%d/h%d/v%v/f%d/sc%d/io%d/bm%d/c%d/p%d/y%s/bg%v", c.NumBucket, len(c.Served), c.TreeHeight, c.CheckVHash,
+		c.DataFileMax, c.SplitCap, c.BufIOCap, c.BodyMax, c.BodyInC, c.Policy, yieldClass(c), c.Background)
 }
 
 func opKinds(ops []Op) string {
@@ -143,4 +143,14 @@ func sortedProbeNames(m map[string]int64) []string {
 	}
 	sort.Strings(ks)
 	return ks
+}
+
+func yieldClass(c *SimCfg) string {
+	switch {
+	case c.StmtYield:
+		return "stmt"
+	case c.FuncYield:
+		return "true"
+	}
+	return "false"
 }
